@@ -42,7 +42,7 @@ from unified_planning.model import (
     MaximizeExpressionOnFinalState, Oversubscription,
 )
 from unified_planning.model.contingent import ContingentProblem, SensingAction
-from unified_planning.model.htn import HierarchicalProblem, Method, Task
+from unified_planning.model.htn import HierarchicalProblem, Method, Task, Subtask
 from unified_planning.model.multi_agent import MultiAgentProblem, Agent
 from unified_planning.plans import ActionInstance
 from unified_planning.exceptions import UPConflictingEffectsException
@@ -437,9 +437,16 @@ def _task_or_action(p, name):
     raise BuildError(f"no task or action {name}")
 
 
+def _subtask(W, p, st, scope):
+    # add_subtask(task, *args) builds the Subtask in the GLOBAL environment; the harness works in its own
+    return Subtask(_task_or_action(p, st["what"]), *[W.expr(a, scope) for a in st.get("args", [])], ident=st["ident"],
+                   _env=W.env)
+
+
 def _apply_htn(W, p, k, op):
     if k == "add_task":
-        p.add_task(op["name"], **OrderedDict((pn, W.type(pt)) for pn, pt in op.get("params", [])))
+        # add_task(name, **params) builds the Task in the GLOBAL environment; the harness works in its own
+        p.add_task(Task(op["name"], OrderedDict((pn, W.type(pt)) for pn, pt in op.get("params", [])), W.env))
         return None
     if k == "add_method":
         md = op["method"]
@@ -452,7 +459,7 @@ def _apply_htn(W, p, k, op):
         for pre in md.get("pre", []):
             m.add_precondition(W.expr(pre, scope))
         for st in md.get("subtasks", []):
-            m.add_subtask(_task_or_action(p, st["what"]), *[W.expr(a, scope) for a in st.get("args", [])], ident=st["ident"])
+            m.add_subtask(_subtask(W, p, st, scope))
         p.add_method(m)
         return None
     if k == "method_add_pre":
@@ -466,12 +473,11 @@ def _apply_htn(W, p, k, op):
             raise BuildError(op["method"])
         m = p.method(op["method"])
         st = op["subtask"]
-        m.add_subtask(_task_or_action(p, st["what"]), *[W.expr(a, {q.name: q for q in m.parameters}) for a in st.get("args", [])],
-                      ident=st["ident"])
+        m.add_subtask(_subtask(W, p, st, {q.name: q for q in m.parameters}))
         return None
     if k == "tn_add_subtask":
         st = op["subtask"]
-        p.task_network.add_subtask(_task_or_action(p, st["what"]), *[W.expr(a) for a in st.get("args", [])], ident=st["ident"])
+        p.task_network.add_subtask(_subtask(W, p, st, None))
         return None
     if k == "tn_set_ordered":
         subs = [s_ for s_ in p.task_network.subtasks if s_.identifier in op["idents"]]
@@ -1372,6 +1378,10 @@ class ModelHist(Engine):
                 if ra[0] == "exc":
                     saw_reject_both = True
                     ctx.probe("rejected-on-both")
+            # ---- reach: which kinds of operation are actually accepted (a kind that is always refused, e.g. because
+            # the harness built its argument in the wrong environment, exercises nothing)
+            kk = k + ":" + op["metric"]["kind"] if k == "add_metric" else k
+            ctx.probe(("accepted:" if all(results[t][0] == "ok" for t in to) else "refused:") + kk)
             # ---- C23: stored values, atomicity of value-faulty operations
             for t in to:
                 res = results[t]
